@@ -458,6 +458,95 @@ pub extern "C" fn harness_kb_native() -> i32 {
     0
 }
 
+// ---------------------------------------------------------------------------------------------
+// Memory bus (C11).  MemoryImage under a configuration (input 500), internal memory loaded from 256
+// inputs (2000..), external memory / overlay buffers start with arbitrary contents (the interpreter
+// gives those allocations symbolic contents; the native replay takes them from `mem` lines).
+// mode 510: 0 = store then load (before/after byte at a2), 1 = multi-byte load vs byte loads.
+fn mem_prepare() -> Box<MemoryImage> {
+    let mut m = Box::new(MemoryImage::new());
+    {
+        let blob: Vec<u8> = (0..256u32).map(|i| vin(2000 + i) as u8).collect();
+        m.load_internal(&blob);
+    }
+    let cfg = vin(500);
+    if cfg == 1 || cfg == 2 || cfg == 3 || cfg == 4 {
+        sc62015_core::pce500::configure_pce500_memory_map(&mut m);
+    }
+    if cfg == 2 {
+        m.set_internal_ram_mirror(true);
+    }
+    if cfg == 3 {
+        let card = harness_buffer(8192, 0x0300_0000);
+        let _ = m.load_memory_card(&card);
+    }
+    if cfg == 4 {
+        m.set_memory_card_slot_present(false);
+    }
+    if cfg == 5 {
+        m.add_ram_overlay(0x80000, 0x8000, "ram_expansion");
+        harness_fill_overlay(&mut m, 0x80000, 0x8000, 0x0500_0000);
+    }
+    if cfg == 6 {
+        let rom = harness_buffer(0x1000, 0x0600_0000);
+        m.add_rom_overlay(0xC0000, &rom, "rom_overlay");
+    }
+    harness_fill_external(&mut m);
+    m
+}
+
+/// Arbitrary buffer contents.  Symbolic run: the allocation itself is symbolic (verif_load is never
+/// consulted, returns 0 = leave as is).  Native replay: bytes come from the `mem` lines at tag+offset.
+fn harness_buffer(len: usize, tag: u32) -> Vec<u8> {
+    let mut v = vec![0u8; len];
+    if vin(509) != 0 {
+        for (i, b) in v.iter_mut().enumerate() {
+            *b = unsafe { verif_load(tag + i as u32) } as u8;
+        }
+    }
+    v
+}
+
+fn harness_fill_external(m: &mut MemoryImage) {
+    if vin(509) != 0 {
+        // native replay only: sparse initial contents of external memory
+        let n = vin(508);
+        for i in 0..n {
+            let a = vin(3000 + 2 * i);
+            m.write_external_byte(a, vin(3001 + 2 * i) as u8);
+        }
+    }
+}
+
+fn harness_fill_overlay(m: &mut MemoryImage, start: u32, _len: usize, _tag: u32) {
+    if vin(509) != 0 {
+        let n = vin(507);
+        for i in 0..n {
+            let off = vin(4000 + 2 * i);
+            let _ = m.store(start + off, 8, vin(4001 + 2 * i));
+        }
+    }
+}
+
+#[no_mangle]
+pub extern "C" fn harness_mem() -> i32 {
+    let mut m = mem_prepare();
+    vout(99, 0);
+    let (a, bits, v, a2) = (vin(501), vin(502) as u8, vin(503), vin(504));
+    if vin(510) == 0 {
+        vout(10, m.load(a2, 8).unwrap_or(0x100));
+        vout(1, m.store(a, bits, v).is_some() as u32);
+        vout(20, m.load(a2, 8).unwrap_or(0x100));
+    } else {
+        vout(30, m.load(a2, bits).unwrap_or(0xFFFF_FFFF));
+        let n = (bits as u32 + 7) / 8;
+        for i in 0..n {
+            vout(40 + i, m.load(a2.wrapping_add(i), 8).unwrap_or(0x100));
+        }
+    }
+    0
+}
+
 /// Entry-point dispatch for the native replay binary.
 pub fn dispatch(name: &str) -> i32 {
     match name {
@@ -468,6 +557,7 @@ pub fn dispatch(name: &str) -> i32 {
         "harness_timer_reset" => harness_timer_reset(),
         "harness_lcd_op" => harness_lcd_op(),
         "harness_lcd_pixels" => harness_lcd_pixels(),
+        "harness_mem" => harness_mem(),
         "harness_kb" => harness_kb(),
         "harness_kb_native" => harness_kb_native(),
         _ => -999,
